@@ -9,3 +9,4 @@ pub mod model;
 pub mod refclass;
 pub mod rs;
 pub mod sweep;
+pub mod bcalls;
